@@ -65,6 +65,10 @@ type Pend struct {
 	Variants func() int
 	// Apply fires variant v; it runs on the goroutine of whichever thread took the decision.
 	Apply func(v int)
+	// Deviation, when set, reports that variant v is a counted deviation in its own right (besides
+	// the preemption rule), e.g. a non-blocking channel operation overtaking a partner that has
+	// not parked yet.
+	Deviation func(v int) bool
 	// Where is an optional source hint (function name); resolved lazily from pc.
 	Where string
 	pc    uintptr
@@ -429,6 +433,9 @@ func (e *Exec) schedule(me *Thread) {
 		if !me.done && me.pend != nil {
 			n := me.pend.Variants()
 			for v := 0; v < n; v++ {
+				if me.pend.Deviation != nil && me.pend.Deviation(v) {
+					costs |= 1 << uint(len(alts))
+				}
 				alts = append(alts, alt{t: me, v: v})
 			}
 			curEnabled = n > 0
@@ -439,7 +446,7 @@ func (e *Exec) schedule(me *Thread) {
 			}
 			n := t.pend.Variants()
 			for v := 0; v < n; v++ {
-				if curEnabled {
+				if curEnabled || (t.pend.Deviation != nil && t.pend.Deviation(v)) {
 					costs |= 1 << uint(len(alts))
 				}
 				alts = append(alts, alt{t: t, v: v})
